@@ -1,14 +1,92 @@
-"""Replay harness front end: searches a failing input on the real crate for a failed obligation (DESIGN §3.6)."""
-import json
+"""Replay harness front end (DESIGN 3.6): builds /verif/replay against the repository under test and searches a concrete
+failing input on the REAL crate for a property.  Bounded (small inputs, seeded); never a deciding step for a pass."""
+import json, os, subprocess, hashlib, shutil, time
+
+ROOT = os.path.dirname(os.path.dirname(os.path.abspath(__file__)))
+MODES = {
+    "C01": ["adf"], "C02": ["adf"], "C03": ["adf"], "C05": ["adf"], "C09": ["adf"],
+    "C06": ["bdd", "persist"], "C07": ["bdd"], "C11": ["bdd", "adf"], "C13": ["bdd"], "C14": ["persist", "bdd"],
+    "C18": ["ng"], "C19": ["mirror"], "C20": ["iters"], "C12": [],
+}
+BOUNDS = "diagrams over 4 variables, op sequences of length <= 20; ADFs with <= 4 statements and formulas of depth <= 3; nogoods over 4 positions; interpretation vectors of length <= 5"
+_cache = {}
+
+
+def _build(repo):
+    key = hashlib.sha1(repo.encode()).hexdigest()[:8]
+    src = f"/var/tmp/verif-replay-src-{key}"
+    tgt = f"/var/tmp/verif-replay-target-{key}"
+    os.makedirs(src, exist_ok=True)
+    if os.path.exists(os.path.join(src, "src")):
+        shutil.rmtree(os.path.join(src, "src"))
+    shutil.copytree(os.path.join(ROOT, "replay", "src"), os.path.join(src, "src"))
+    open(os.path.join(src, "Cargo.toml"), "w").write(open(os.path.join(ROOT, "replay", "Cargo.toml.in")).read().replace("@REPO@", repo))
+    lock = os.path.join(repo, "Cargo.lock")
+    if os.path.exists(lock):
+        shutil.copy(lock, os.path.join(src, "Cargo.lock"))
+    env = dict(os.environ, CARGO_TARGET_DIR=tgt, CARGO_NET_OFFLINE="true")
+    p = subprocess.run(["cargo", "build", "--offline", "-q"], cwd=src, env=env, capture_output=True, text=True, timeout=1500)
+    if p.returncode != 0:
+        return None, p.stderr[-1500:]
+    return os.path.join(tgt, "debug", "verif_replay"), ""
+
+
+def run_modes(repo, modes, seed, budget=300, timeout=180, want=None):
+    """returns (witness or None, checked inputs, notes); `want` = property tags whose findings count (None = any)"""
+    if repo not in _cache:
+        _cache[repo] = _build(repo)
+    exe, err = _cache[repo]
+    if exe is None:
+        return None, 0, ["replay harness does not build against this tree: " + err[-300:]]
+    checked, notes = 0, []
+    for m in modes:
+        for s in (seed, seed + 1):
+            key = (repo, m, s, budget)
+            if key not in _cache:
+                try:
+                    q = subprocess.run([exe, m, str(s + 1), str(budget)], capture_output=True, text=True, timeout=timeout)
+                    line = [l for l in q.stdout.splitlines() if l.startswith("{")]
+                    if line:
+                        _cache[key] = json.loads(line[-1])
+                    else:
+                        _cache[key] = dict(witnesses={"?": f"replay harness mode {m} seed {s + 1} ended abnormally (exit {q.returncode}): {(q.stderr or q.stdout)[-400:]}"}, checked=0)
+                except subprocess.TimeoutExpired:
+                    _cache[key] = dict(witnesses={"?": f"replay harness mode {m} seed {s + 1}: no answer within {timeout}s (non-termination on a small input)"}, checked=0)
+            r = _cache[key]
+            checked += r.get("checked", 0)
+            ws = r.get("witnesses", {})
+            for tag, msg in sorted(ws.items()):
+                if want is None or tag in want:
+                    return dict(mode=m, seed=s + 1, budget=budget, tag=tag, input=msg, bounds=BOUNDS, rerun=f"{exe} {m} {s + 1} {budget}"), checked, notes
+            for tag in ws:
+                if tag == "?":
+                    notes.append(ws[tag][:300])
+                else:
+                    notes.append(f"the harness found a failing input for {tag} (not this property): {ws[tag][:160]}")
+    return None, checked, notes
 
 
 def search(prop, unit, cfg, failure, repo, seed):
-    """returns a witness dict or None (none = no failing input found)"""
-    return None
+    """returns a witness dict or None (none = no failing input found within the stated bounds)"""
+    modes = MODES.get(prop, [])
+    if not modes:
+        return None
+    try:
+        w, _, _ = run_modes(repo, modes, seed, want=[prop])
+    except Exception as e:  # the harness must never turn into an alarm by itself
+        return None
+    return w
 
 
 def replay_file(path):
     rec = json.load(open(path))
     print(json.dumps({k: rec[k] for k in rec if k != "verifier_output"}, indent=1))
     print(rec.get("verifier_output", ""))
+    w = rec.get("witness")
+    if w and w.get("rerun"):
+        repo = os.environ.get("VERIF_REPO", "/repo")
+        print(f"re-running the recorded search against {repo} ...")
+        r, checked, _ = run_modes(repo, [w["mode"]], w["seed"] - 1, w.get("budget", 300), want=[w.get("tag", rec.get("property"))])
+        print("observed now:", json.dumps(r) if r else f"no failing input (checked {checked})")
+        return 1 if r else 0
     return 0
